@@ -187,6 +187,7 @@ pub fn prop() -> Prop {
         assumptions: &["positivity demanded only for differences > 1e-6 and p <= 10 (|diff|^p may underflow otherwise)", "p = +inf and NaN are outside the stated domain (0, inf)"],
         post: None,
         watchdog_s: 60,
+        hang_is_violation: false,
         shrink_iters: 3000,
     }
 }
